@@ -136,6 +136,7 @@ def sortedPlan : List PlanItem → Bool
   | a :: b :: l => decide (a.1 < b.1) && sortedPlan (b :: l)
 
 def holdsName (l : Loc) (k : Key) : Bool := l.held.any fun h => h.key == k
+def holdsNameW (l : Loc) (k : Key) : Bool := l.held.any fun h => h.key == k && h.mode == .w
 def holdOf (l : Loc) (r : Rec) : Option Hold := l.held.find? (·.rid == r)
 
 /-- the loop of `lockKeys`: the next key, or the command body -/
@@ -181,7 +182,8 @@ def tstep (s : Shared) (t : Tid) (l : Loc) (ch : Choice) : Out :=
       -- `m = tx.acquire(key, true, true, false)`
       if holdsName l k then some (s, { l with pc := .a1, key := k, write := true, ph := true, ret := .newKey }, none) else none
     | .delKey k =>
-      if holdsName l k then some (s, { l with pc := .d1, key := k }, none) else none
+      -- callers delete only keys they have write-locked (writeKey / lockKeys come first)
+      if holdsNameW l k then some (s, { l with pc := .d1, key := k }, none) else none
     | .commit => some (s, { l with pc := .c0 }, none)
   ------------------------------------------------------------------ acquire
   | .a1 =>  -- s.mu.RLock()
@@ -209,7 +211,7 @@ def tstep (s : Shared) (t : Tid) (l : Loc) (ch : Choice) : Out :=
       let r := ch.fresh
       if (assoc s.names r).isSome then none else       -- `newMetadata()` returns a new object
       let s := { s with names := (r, l.key) :: s.names, pending := put s.pending l.key r }
-      let s := s.setMu r (if l.write then (s.mu r).lock t else (s.mu r).rlock t)
+      let s := s.setMu r (if l.write then ({} : Mu).lock t else ({} : Mu).rlock t)   -- a new RWMutex
       let h : Hold := { rid := r, key := l.key, mode := modeOf l.write, valid := true }
       some (s, { l with pc := .a6c, m := r, held := h :: l.held }, some (.claim t l.key r (modeOf l.write)))
   | .a6r => -- s.mu.Unlock(); continue
@@ -269,7 +271,7 @@ def tstep (s : Shared) (t : Tid) (l : Loc) (ch : Choice) : Out :=
     let r := ch.fresh
     if (assoc s.names r).isSome then none else
     let s := { s with names := (r, l.key) :: s.names, pending := put s.pending l.key r }
-    let s := s.setMu r ((s.mu r).lock t)
+    let s := s.setMu r (({} : Mu).lock t)
     let h : Hold := { rid := r, key := l.key, mode := .w, valid := true }
     some (s, { l with pc := .d4, held := h :: l.held }, some (.claim t l.key r .w))
   | .d4 =>  -- s.mu.Unlock()
